@@ -134,6 +134,13 @@ var c12Sites = []c12Site{
 	{"jobs.<job_id>.with.<with_id>", "reusable workflow with", "on: push\njobs:\n  j:\n    uses: o/r/.github/workflows/w.yml@v1\n    with:\n      a: %s\n"},
 	{"jobs.<job_id>.secrets.<secrets_id>", "reusable workflow secrets", "on: push\njobs:\n  j:\n    uses: o/r/.github/workflows/w.yml@v1\n    secrets:\n      a: %s\n"},
 	{"", "reusable workflow uses", "on: push\njobs:\n  j:\n    uses: %s\n"},
+	// the same keys next to siblings that hold placeholders themselves: the verdict at a key must not depend on a sibling
+	{"jobs.<job_id>.with.<with_id>", "reusable workflow with (uses: holds a placeholder)", "on: push\njobs:\n  j:\n    uses: o/r/.github/workflows/w.yml@${{ 'v1' }}\n    with:\n      a: %s\n"},
+	{"jobs.<job_id>.secrets.<secrets_id>", "reusable workflow secrets (uses: holds a placeholder)", "on: push\njobs:\n  j:\n    uses: ${{ 'o/r/.github/workflows/w.yml@v1' }}\n    secrets:\n      a: %s\n"},
+	{"jobs.<job_id>.with.<with_id>", "reusable workflow with (local callee, needs and strategy present)", "on: push\njobs:\n  a:\n    runs-on: ubuntu-latest\n    steps:\n      - run: echo\n  j:\n    needs: [a]\n    strategy:\n      matrix:\n        v: [1]\n    uses: ./.github/workflows/w.yml\n    with:\n      a: %s\n    secrets: inherit\n"},
+	{"jobs.<job_id>.steps.with", "step with (uses: holds a placeholder)", c12JobHead + "    steps:\n      - uses: actions/checkout@${{ 'v4' }}\n        with:\n          ref: %s\n"},
+	{"jobs.<job_id>.steps.env", "step env (run: and name: hold placeholders)", c12JobHead + "    steps:\n      - run: echo ${{ github.sha }}\n        name: ${{ github.sha }}\n        env:\n          A: %s\n"},
+	{"jobs.<job_id>.runs-on", "runs-on labels (group holds a placeholder)", "on: push\njobs:\n  j:\n    runs-on:\n      group: ${{ github.sha }}\n      labels:\n        - %s\n" + c12Steps},
 }
 
 var (
